@@ -35,10 +35,26 @@
 //!   zipcheck <path>       Collection::from_zipfile(/repo/tests/test-data/<path>): every row equals
 //!                         Record::from_sig of the one sketch sig_for_dataset returns
 //!
+//! Histories on collections (`hist` cases; slots 0..2 hold collections, `none` when empty):
+//!   hnew <be>             slot 0 := the case's signatures as a collection over mem | fs | zip | rdb (as
+//!                         for `lookup`); its manifest is the ORIGINAL manifest of the case; other slots cleared
+//!   hclone a b            slot b := slot a.clone()
+//!   hisect a <rows>       slot a.intersect_manifest(those rows of the original manifest): the rows left
+//!   hsel a SEL            slot a := slot a.select(SEL): the rows left   (SEL = ksize mol abund num scaled, `-` = absent)
+//!   hswap a               the same manifest over a NEW storage object with the same content
+//!                         (CollectionSet::set_storage_unchecked when the collection is one, Collection::new otherwise)
+//!   hget a i | hfr a i    slot a.sig_for_dataset(i) / sig_from_record(&manifest[i]): `<loc>=<sketches>`
+//!   hlazy a i             record i -> SigStore::builder().filename(internal_location).storage(collection's
+//!                         storage) (not read yet) -> select(Selection::from_record) (a refused select is
+//!                         retried after data()) -> data(): `<loc>=<sketches>`
+//!   hrec a i              slot a.record_for_dataset(i)
+//!   hiter a               slot a.iter(): `<idx>:<loc>:<md5>` per row
+//! Every answer must describe the CURRENT manifest of that slot, whatever was looked up before and
+//! whatever happened to its clones.
+//!
 //! Built with `--no-default-features` (sourmash with its default feature set: the serial cfg variants
 //! of Collection::from_sigs and Manifest::from(&[PathBuf]); no RocksDB) `lookup i rdb` answers `NA`.
 use sourmash::collection::Collection;
-#[cfg(feature = "disk")]
 use sourmash::collection::CollectionSet;
 #[cfg(feature = "disk")]
 use sourmash::index::revindex::{RevIndex, RevIndexOps};
@@ -47,7 +63,9 @@ use sourmash::manifest::{Manifest, Record};
 use sourmash::signature::{Signature, SigsTrait};
 use sourmash::sketch::minhash::{max_hash_for_scaled, KmerMinHash, KmerMinHashBTree};
 use sourmash::sketch::Sketch;
-use sourmash::storage::{InnerStorage, MemStorage, Storage};
+use sourmash::prelude::*;
+use sourmash::selection::Selection;
+use sourmash::storage::{FSStorage, InnerStorage, MemStorage, SigStore, Storage, ZipStorage};
 use verif_harness::*;
 
 const SEED0: u64 = 1000;
@@ -827,6 +845,154 @@ fn gen(a: &Args) {
             }
         }
     }
+    // stream 4: histories on collections
+    let n4 = if a.cases > 0 { a.cases / 4 + 1 } else if thorough { 6000 } else { 600 };
+    for ci in 0..n4 {
+        gen_hist(&mut r, &mut o, ci);
+    }
+}
+
+/// does a sketch satisfy a `hsel` request (generator-side estimate of what a slot still holds)
+fn g_sat(g: &GSk, sel: &[Option<u64>; 5]) -> bool {
+    let res = if g.mol == "dna" { g.ksize } else { g.ksize / 3 };
+    let scaled_rep = if g.scaled == 0 { 0 } else { g.scaled };
+    sel[0].map_or(true, |k| res == k)
+        && sel[1].map_or(true, |m| MOLS[m as usize] == g.mol)
+        && sel[2].map_or(true, |a| (a == 1) == g.tracked)
+        && sel[3].map_or(true, |n| g.num == n)
+        && sel[4].map_or(true, |sc| scaled_rep != 0 && scaled_rep <= sc)
+}
+
+/// stream 4: histories - look-ups interleaved with intersect_manifest / select / clone / storage swaps
+fn gen_hist(r: &mut Rng, o: &mut Out, ci: u64) {
+    o.case("hist");
+    let homog = r.chance(1, 2);
+    let (hres, hmol) = (*r.pick(&[7u64, 10, 21, 31]), *r.pick(&MOLS));
+    let nsig = r.range(2, 6);
+    let mut flat: Vec<GSk> = vec![];
+    for _ in 0..nsig {
+        let keys: Vec<(u64, &'static str, bool)> = if homog {
+            match r.below(5) {
+                0 | 1 => vec![(hres, hmol, r.chance(1, 2))],
+                2 => vec![],
+                _ => if r.chance(1, 2) { vec![(hres, hmol, false), (hres, hmol, true)] } else { vec![(hres, hmol, true), (hres, hmol, false)] },
+            }
+        } else {
+            let mut seen: Vec<(u64, &'static str, bool)> = vec![];
+            for _ in 0..r.range(1, 3) {
+                let key = (*r.pick(&[7u64, 10, 21, 31]), *r.pick(&MOLS), r.chance(1, 2));
+                if !seen.contains(&key) {
+                    seen.push(key);
+                }
+            }
+            seen
+        };
+        let none_name = keys.len() == 1 && r.chance(1, 4);
+        let name = if none_name { "~".to_string() } else { hex(gen_string(r).as_bytes()) };
+        let fname = if r.chance(1, 2) { "~".to_string() } else { hex(gen_string(r).as_bytes()) };
+        if name == "~" && fname == "~" && keys.len() != 1 {
+            continue;
+        }
+        o.op(&format!("sig {} {}", name, fname));
+        for key in keys {
+            let g = gen_sketch(r, key.0, key.1, key.2);
+            let md5 = md5_of(&build_sketch(&format!("sk {}", g.words()).split(' ').collect::<Vec<_>>(), 0));
+            o.op(&format!("sk {} {}", g.words(), md5));
+            flat.push(g);
+        }
+    }
+    let total = flat.len() as u64;
+    let be = if homog && ci % 8 == 0 { "rdb" } else { *r.pick(&["mem", "mem", "fs", "zip"]) };
+    o.op(&format!("hnew {}", be));
+    // what the generator believes each slot holds (positions in the original manifest)
+    let mut slots: [Option<Vec<u64>>; 3] = [Some((0..total).collect()), None, None];
+    let mut last: (u64, u64) = (0, 0);
+    for _ in 0..r.range(8, 24) {
+        let live: Vec<u64> = (0..3u64).filter(|&a| slots[a as usize].is_some()).collect();
+        let a = if r.chance(1, 3) && slots[last.0 as usize].is_some() { last.0 } else { *r.pick(&live) };
+        let cur = slots[a as usize].clone().unwrap();
+        let n = cur.len() as u64;
+        let idx = |r: &mut Rng| -> u64 {
+            if r.chance(1, 3) {
+                last.1 // the index that was looked at last (here or in another slot)
+            } else if n == 0 || r.chance(1, 25) {
+                n + r.below(2)
+            } else {
+                r.below(n)
+            }
+        };
+        match r.below(20) {
+            0..=7 => {
+                let i = idx(r);
+                o.op(&format!("hget {} {}", a, i));
+                last = (a, i);
+            }
+            8 => {
+                let i = idx(r);
+                o.op(&format!("hfr {} {}", a, i));
+            }
+            9 => {
+                let i = idx(r);
+                o.op(&format!("hrec {} {}", a, i));
+            }
+            10 => {
+                let i = idx(r);
+                o.op(&format!("hlazy {} {}", a, i));
+            }
+            11 => o.op(&format!("hiter {}", a)),
+            12..=14 => {
+                // mostly: drop one or two of the rows the slot holds (an EARLIER row renumbers the rest)
+                let mut keep = cur.clone();
+                if !keep.is_empty() {
+                    let at = if r.chance(1, 2) { 0 } else { r.below(keep.len() as u64) as usize };
+                    keep.remove(at);
+                }
+                if !keep.is_empty() && r.chance(1, 3) {
+                    keep.remove(r.below(keep.len() as u64) as usize);
+                }
+                if r.chance(1, 6) && total > 0 {
+                    keep.push(r.below(total));
+                }
+                if r.chance(1, 8) {
+                    keep.reverse();
+                }
+                o.op(&format!("hisect {} {}", a, show_nats(keep.iter().cloned())));
+                slots[a as usize] = Some(cur.iter().cloned().filter(|p| keep.contains(p)).collect());
+            }
+            15 | 16 => {
+                let b = r.below(3);
+                if b != a {
+                    o.op(&format!("hclone {} {}", a, b));
+                    slots[b as usize] = slots[a as usize].clone();
+                }
+            }
+            17 => o.op(&format!("hswap {}", a)),
+            _ => {
+                let mut sel: [Option<u64>; 5] = [None; 5];
+                if !cur.is_empty() {
+                    let g = &flat[*r.pick(&cur) as usize];
+                    match r.below(6) {
+                        0 | 1 => sel[0] = Some(if g.mol == "dna" { g.ksize } else { g.ksize / 3 }),
+                        2 => sel[1] = Some(MOLS.iter().position(|m| *m == g.mol).unwrap() as u64),
+                        3 => sel[2] = Some(g.tracked as u64),
+                        4 => sel[3] = Some(g.num),
+                        _ => sel[4] = Some(if g.scaled == 0 { 1000 } else { g.scaled.min(u32::MAX as u64) }),
+                    }
+                } else {
+                    sel[0] = Some(21);
+                }
+                let w: Vec<String> = (0..5)
+                    .map(|i| match sel[i] {
+                        None => "-".to_string(),
+                        Some(v) if i == 1 => MOLS[v as usize].to_string(),
+                        Some(v) => v.to_string(),
+                    })
+                    .collect();
+                o.op(&format!("hsel {} {}", a, w.join(" ")));
+                slots[a as usize] = Some(cur.iter().cloned().filter(|&p| g_sat(&flat[p as usize], &sel)).collect());
+            }
+        }
+    }
 }
 
 // ------------------------------------------------------------------ exec
@@ -840,6 +1006,10 @@ struct St {
     stored: std::collections::BTreeMap<String, Stored>,
     /// the document of the case's `mcsv` line
     doc: Vec<u8>,
+    /// histories: the backend and original manifest of `hnew`, and the slots
+    hbe: String,
+    orig: Vec<Record>,
+    slots: [Option<Collection>; 3],
 }
 
 /// a collection over one of the non-memory storages, built once per case and backend
@@ -848,6 +1018,7 @@ struct Stored {
     _dir: tempfile::TempDir,
     coll: Result<Collection, String>,
 }
+
 
 fn err_name<E: std::fmt::Debug>(e: E) -> String {
     let s = format!("{:?}", e);
@@ -1058,6 +1229,205 @@ fn idx_list(st: &St, s: &str) -> Manifest {
     v.into()
 }
 
+fn parse_sel(ws: &[&str]) -> Selection {
+    let mut sel = Selection::default();
+    if ws[0] != "-" {
+        sel.set_ksize(ws[0].parse().unwrap());
+    }
+    if ws[1] != "-" {
+        sel.set_moltype(hf(ws[1]));
+    }
+    if ws[2] != "-" {
+        sel.set_abund(ws[2] == "1");
+    }
+    if ws[3] != "-" {
+        sel.set_num(ws[3].parse().unwrap());
+    }
+    if ws[4] != "-" {
+        sel.set_scaled(ws[4].parse().unwrap());
+    }
+    sel
+}
+
+/// a record with its location reduced to the signature's position (see `canon_loc`)
+fn show_record_canon(r: &Record) -> String {
+    let full = show_record(r);
+    let rest = full.split_once(':').unwrap().1;
+    format!("{}:{}", hex(canon_loc(r.internal_location().as_str()).as_bytes()), rest)
+}
+
+fn show_rows(c: &Collection) -> String {
+    let v: Vec<String> = c.manifest().iter().map(show_record_canon).collect();
+    if v.is_empty() {
+        "-".into()
+    } else {
+        v.join("|")
+    }
+}
+
+fn show_loaded(loc: &str, r: Result<SigStore, sourmash::Error>) -> String {
+    match r {
+        Ok(s) => match s.data() {
+            Ok(sig) => {
+                let v: Vec<String> = sig.iter().map(descr).collect();
+                format!("{}={}", canon_loc(loc), if v.is_empty() { "-".into() } else { v.join(";") })
+            }
+            Err(e) => err_name(e),
+        },
+        Err(e) => err_name(e),
+    }
+}
+
+/// a storage object of the history's backend holding what the collection's storage holds
+fn fresh_storage(st: &St, c: &Collection) -> InnerStorage {
+    match st.hbe.as_str() {
+        "mem" => {
+            let storage = MemStorage::new();
+            for (i, sig) in st.sigs.iter().enumerate() {
+                storage.save_sig(&i.to_string(), sig.clone()).unwrap();
+            }
+            InnerStorage::new(storage)
+        }
+        "fs" => InnerStorage::new(FSStorage::new("", "")),
+        "zip" => {
+            let p = st.stored["zip"]._dir.path().join("c.zip");
+            InnerStorage::new(ZipStorage::from_file(camino::Utf8PathBuf::from_path_buf(p).unwrap()).unwrap())
+        }
+        // the database stays where it is: another handle on it
+        _ => c.storage().clone(),
+    }
+}
+
+fn hist_step(st: &mut St, ws: &[&str]) -> String {
+    if ws[0] == "hnew" {
+        st.slots = [None, None, None];
+        st.orig.clear();
+        let be = ws[1];
+        st.hbe = be.to_string();
+        let c = if be == "mem" {
+            Collection::from_sigs(st.sigs.clone()).map_err(err_name)
+        } else {
+            #[cfg(not(feature = "disk"))]
+            if be == "rdb" {
+                return "NA".into();
+            }
+            if st.stored.get(be).map(|b| b.version) != Some(st.version) {
+                st.stored.remove(be);
+                let b = build_stored(&st.sigs, be, st.version, &st.doc);
+                st.stored.insert(be.to_string(), b);
+            }
+            st.stored[be].coll.clone()
+        };
+        return match c {
+            Ok(c) => {
+                st.orig = c.manifest().iter().cloned().collect();
+                let n = c.len();
+                st.slots[0] = Some(c);
+                format!("ok {}", n)
+            }
+            Err(e) => e,
+        };
+    }
+    #[cfg(not(feature = "disk"))]
+    if st.hbe == "rdb" {
+        return "NA".into();
+    }
+    let a: usize = ws[1].parse().unwrap();
+    if st.slots[a].is_none() {
+        return "none".into();
+    }
+    match ws[0] {
+        "hclone" => {
+            let b: usize = ws[2].parse().unwrap();
+            st.slots[b] = st.slots[a].clone();
+            "ok".into()
+        }
+        "hisect" => {
+            let other: Vec<Record> = parse_nats(ws[2]).into_iter().map(|i| st.orig[i as usize].clone()).collect();
+            let c = st.slots[a].as_mut().unwrap();
+            c.intersect_manifest(&Manifest::from(other));
+            show_rows(c)
+        }
+        "hsel" => {
+            let sel = parse_sel(&ws[2..]);
+            match st.slots[a].take().unwrap().select(&sel) {
+                Ok(c) => {
+                    let out = show_rows(&c);
+                    st.slots[a] = Some(c);
+                    out
+                }
+                Err(e) => err_name(e),
+            }
+        }
+        "hswap" => {
+            let c = st.slots[a].take().unwrap();
+            let storage = fresh_storage(st, &c);
+            let c = match CollectionSet::try_from(c.clone()) {
+                Ok(mut cs) => {
+                    unsafe { cs.set_storage_unchecked(storage) };
+                    cs.into_inner()
+                }
+                Err(_) => Collection::new(c.manifest().clone(), storage),
+            };
+            st.slots[a] = Some(c);
+            "ok".into()
+        }
+        "hget" | "hfr" | "hlazy" | "hrec" => {
+            let c = st.slots[a].as_ref().unwrap();
+            let i: u32 = ws[2].parse().unwrap();
+            match ws[0] {
+                "hrec" => match c.record_for_dataset(i) {
+                    Ok(r) => show_record_canon(r),
+                    Err(e) => err_name(e),
+                },
+                "hget" => {
+                    let got = c.sig_for_dataset(i);
+                    let loc = c.manifest()[i as usize].internal_location().to_string();
+                    show_loaded(&loc, got)
+                }
+                "hfr" => {
+                    let rec = c.manifest()[i as usize].clone();
+                    show_loaded(rec.internal_location().as_str(), c.sig_from_record(&rec))
+                }
+                _ => {
+                    let rec = c.manifest()[i as usize].clone();
+                    let store = SigStore::builder()
+                        .filename(rec.internal_location().as_str())
+                        .name(rec.name().clone())
+                        .metadata("")
+                        .storage(Some(c.storage().clone()))
+                        .build();
+                    let got = (|| {
+                        let sel = Selection::from_record(&rec)?;
+                        let spare = store.clone();
+                        match store.select(&sel) {
+                            Ok(s) => Ok(s),
+                            Err(_) => {
+                                spare.data()?;
+                                spare.select(&sel)
+                            }
+                        }
+                    })();
+                    show_loaded(rec.internal_location().as_str(), got)
+                }
+            }
+        }
+        "hiter" => {
+            let c = st.slots[a].as_ref().unwrap();
+            let v: Vec<String> = c
+                .iter()
+                .map(|(i, r)| format!("{}:{}:{}", i, canon_loc(r.internal_location().as_str()), r.md5()))
+                .collect();
+            if v.is_empty() {
+                "-".into()
+            } else {
+                v.join("|")
+            }
+        }
+        _ => "bad-op".into(),
+    }
+}
+
 fn step(st: &mut St, ws: &[&str]) -> String {
     match ws[0] {
         "case" => "ok".into(),
@@ -1160,6 +1530,7 @@ fn step(st: &mut St, ws: &[&str]) -> String {
                 Err(e) => e.clone(),
             }
         }
+        "hnew" | "hclone" | "hisect" | "hsel" | "hswap" | "hget" | "hfr" | "hlazy" | "hrec" | "hiter" => hist_step(st, ws),
         "zipcheck" => {
             let c = Collection::from_zipfile(format!("/repo/tests/test-data/{}", ws[1])).unwrap();
             let mut bad = vec![];
